@@ -1,8 +1,9 @@
 use engine::Property;
 pub mod c12;
+pub mod c15;
 pub mod c19;
 pub mod c20;
 
 pub fn properties() -> Vec<Box<dyn Property>> {
-    vec![Box::new(c12::C12), Box::new(c19::C19), Box::new(c20::C20)]
+    vec![Box::new(c12::C12), Box::new(c15::C15), Box::new(c19::C19), Box::new(c20::C20)]
 }
